@@ -1,0 +1,122 @@
+// Copyright 2020-2025 Buf Technologies, Inc.
+//
+// Licensed under the Apache License, Version 2.0 (the "License");
+// you may not use this file except in compliance with the License.
+// You may obtain a copy of the License at
+//
+//      http://www.apache.org/licenses/LICENSE-2.0
+//
+// Unless required by applicable law or agreed to in writing, software
+// distributed under the License is distributed on an "AS IS" BASIS,
+// WITHOUT WARRANTIES OR CONDITIONS OF ANY KIND, either express or implied.
+// See the License for the specific language governing permissions and
+// limitations under the License.
+
+//go:build verif
+
+package bufanalysis
+
+// Contracts for the gocv verifier (see /verif/DESIGN.md), author ca-W. Comment-only.
+// Ghost variables w_nrecs / w_recs / w_recAnn (the records handed to the writer) and w_ncases / w_cases (JUnit test cases):
+// /verif/specs/ghost.spec. Format oracles textLine / msvsLine / ghaLine: /verif/specs/C20.spec.
+//
+// C20 "for the same input every --error-format renders the same annotations in the same order": all line formats go
+// through printEachAnnotationOnNewLine. For ANY of the four per-annotation printers: exactly one record is handed to the
+// writer per annotation, the i-th record was rendered from the i-th annotation, is that printer's rendering of it (for text,
+// msvs and github-actions: the documented line) and ends the line. If the writer or the printer fails, the records written
+// before are still exactly the renderings of a prefix of the annotations, and the error is returned.
+// The call through the function value is resolved over the four printers (dispatch); being one of them is a precondition
+// that the four callers discharge.
+//@ func printEachAnnotationOnNewLine(writer, fileAnnotations, fileAnnotationPrinter) (err)
+//@   property C20
+//@   modifies heap, ghost.buf, ghost.fail, ghost.wfail, ghost.w_nrecs, ghost.w_recs, ghost.w_recAnn
+//@   dispatch fileAnnotationPrinter over printFileAnnotationAsText, printFileAnnotationAsMSVS, printFileAnnotationAsJSON, printFileAnnotationAsGithubActions
+//@   requires known-printer: fileAnnotationPrinter == printFileAnnotationAsText || fileAnnotationPrinter == printFileAnnotationAsMSVS || fileAnnotationPrinter == printFileAnnotationAsJSON || fileAnnotationPrinter == printFileAnnotationAsGithubActions
+//@   ghost before "if _, err := writer.Write(buffer.Bytes())" w_recs := put(ghost.w_recs, ghost.w_nrecs, ghost.buf[buffer])
+//@   ghost before "if _, err := writer.Write(buffer.Bytes())" w_recAnn := put(ghost.w_recAnn, ghost.w_nrecs, fileAnnotation)
+//@   ghost before "if _, err := writer.Write(buffer.Bytes())" w_nrecs := ghost.w_nrecs + 1
+//@   ensures one-record-per-annotation: err == nil ==> ghost.w_nrecs == old(ghost.w_nrecs) + len(fileAnnotations)
+//@   ensures never-more-records-than-annotations: old(ghost.w_nrecs) <= ghost.w_nrecs && ghost.w_nrecs <= old(ghost.w_nrecs) + len(fileAnnotations)
+//@   ensures ith-record-from-ith-annotation: forall i int :: 0 <= i && i < ghost.w_nrecs - old(ghost.w_nrecs) ==> ghost.w_recAnn[old(ghost.w_nrecs) + i] == fileAnnotations[i]
+//@   ensures text-records: fileAnnotationPrinter == printFileAnnotationAsText ==> (forall i int :: 0 <= i && i < ghost.w_nrecs - old(ghost.w_nrecs) ==> ghost.w_recs[old(ghost.w_nrecs) + i] == fileAnnotations[i].String() + "\n")
+//@   ensures msvs-records: fileAnnotationPrinter == printFileAnnotationAsMSVS ==> (forall i int :: 0 <= i && i < ghost.w_nrecs - old(ghost.w_nrecs) ==> ghost.w_recs[old(ghost.w_nrecs) + i] == ite(fileAnnotations[i] == nil, "", msvsLine(fileAnnotations[i])) + "\n")
+//@   ensures github-actions-records: fileAnnotationPrinter == printFileAnnotationAsGithubActions ==> (forall i int :: 0 <= i && i < ghost.w_nrecs - old(ghost.w_nrecs) ==> ghost.w_recs[old(ghost.w_nrecs) + i] == ite(fileAnnotations[i] == nil, "", ghaLine(fileAnnotations[i])) + "\n")
+//@   ensures every-record-ends-its-line: forall i int :: 0 <= i && i < ghost.w_nrecs - old(ghost.w_nrecs) ==> hasSuffix(ghost.w_recs[old(ghost.w_nrecs) + i], "\n")
+//@   ensures earlier-records-untouched: forall c int :: c < old(ghost.w_nrecs) ==> ghost.w_recs[c] == old(ghost.w_recs)[c] && ghost.w_recAnn[c] == old(ghost.w_recAnn)[c]
+//@   ensures failure-reported: ghost.fail && !old(ghost.fail) ==> err != nil
+//@   canary ensures err != nil
+//@   loop 0 invariant count: ghost.w_nrecs == $entry(ghost.w_nrecs) + $i
+//@   loop 0 invariant buffer-known: buffer != nil && buffer in ghost.buf
+//@   loop 0 invariant no-failure-so-far: ghost.fail == $entry(ghost.fail)
+//@   loop 0 invariant from: forall i int :: 0 <= i && i < $i ==> ghost.w_recAnn[$entry(ghost.w_nrecs) + i] == fileAnnotations[i]
+//@   loop 0 invariant text: fileAnnotationPrinter == printFileAnnotationAsText ==> (forall i int :: 0 <= i && i < $i ==> ghost.w_recs[$entry(ghost.w_nrecs) + i] == fileAnnotations[i].String() + "\n")
+//@   loop 0 invariant msvs: fileAnnotationPrinter == printFileAnnotationAsMSVS ==> (forall i int :: 0 <= i && i < $i ==> ghost.w_recs[$entry(ghost.w_nrecs) + i] == ite(fileAnnotations[i] == nil, "", msvsLine(fileAnnotations[i])) + "\n")
+//@   loop 0 invariant gha: fileAnnotationPrinter == printFileAnnotationAsGithubActions ==> (forall i int :: 0 <= i && i < $i ==> ghost.w_recs[$entry(ghost.w_nrecs) + i] == ite(fileAnnotations[i] == nil, "", ghaLine(fileAnnotations[i])) + "\n")
+//@   loop 0 invariant eol: forall i int :: 0 <= i && i < $i ==> hasSuffix(ghost.w_recs[$entry(ghost.w_nrecs) + i], "\n")
+//@   loop 0 invariant frame: forall c int :: c < $entry(ghost.w_nrecs) ==> ghost.w_recs[c] == $entry(ghost.w_recs)[c] && ghost.w_recAnn[c] == $entry(ghost.w_recAnn)[c]
+//
+// The text printer appends the annotation's text form (for *fileAnnotation: the verified String#post[text-format]).
+//@ func printFileAnnotationAsText(buffer, f) (err)
+//@   property C20
+//@   modifies ghost.buf
+//@   ensures err == nil
+//@   ensures format: ghost.buf == put(old(ghost.buf), buffer, old(ghost.buf)[buffer] + f.String())
+//
+// The JSON printer appends encoding/json's rendering (TRUSTED: escaping, well-formedness) of the record whose fields are
+// verified in newExternalFileAnnotation#post[json-fields]; a marshalling error is returned. (json.Marshal and
+// bytes.Buffer.Write are declared without a content model in C16.spec / C14_buckets.spec, so the text is not available.)
+//@ func printFileAnnotationAsJSON(buffer, f) (err)
+//@   property C20
+//@   modifies ghost.buf
+//
+// The four line formats: the same annotations, in the same order, one record each (i-th record <- i-th annotation).
+//@ func printAsText(writer, fileAnnotations) (err)
+//@   property C20
+//@   modifies heap, ghost.buf, ghost.fail, ghost.wfail, ghost.w_nrecs, ghost.w_recs, ghost.w_recAnn
+//@   ensures same-annotations-same-order: err == nil ==> ghost.w_nrecs == old(ghost.w_nrecs) + len(fileAnnotations) && (forall i int :: 0 <= i && i < len(fileAnnotations) ==> ghost.w_recAnn[old(ghost.w_nrecs) + i] == fileAnnotations[i] && ghost.w_recs[old(ghost.w_nrecs) + i] == fileAnnotations[i].String() + "\n")
+//@   ensures failure-reported: ghost.fail && !old(ghost.fail) ==> err != nil
+//
+//@ func printAsMSVS(writer, fileAnnotations) (err)
+//@   property C20
+//@   modifies heap, ghost.buf, ghost.fail, ghost.wfail, ghost.w_nrecs, ghost.w_recs, ghost.w_recAnn
+//@   ensures same-annotations-same-order: err == nil ==> ghost.w_nrecs == old(ghost.w_nrecs) + len(fileAnnotations) && (forall i int :: 0 <= i && i < len(fileAnnotations) ==> ghost.w_recAnn[old(ghost.w_nrecs) + i] == fileAnnotations[i] && ghost.w_recs[old(ghost.w_nrecs) + i] == ite(fileAnnotations[i] == nil, "", msvsLine(fileAnnotations[i])) + "\n")
+//@   ensures failure-reported: ghost.fail && !old(ghost.fail) ==> err != nil
+//
+//@ func printAsGithubActions(writer, fileAnnotations) (err)
+//@   property C20
+//@   modifies heap, ghost.buf, ghost.fail, ghost.wfail, ghost.w_nrecs, ghost.w_recs, ghost.w_recAnn
+//@   ensures same-annotations-same-order: err == nil ==> ghost.w_nrecs == old(ghost.w_nrecs) + len(fileAnnotations) && (forall i int :: 0 <= i && i < len(fileAnnotations) ==> ghost.w_recAnn[old(ghost.w_nrecs) + i] == fileAnnotations[i] && ghost.w_recs[old(ghost.w_nrecs) + i] == ite(fileAnnotations[i] == nil, "", ghaLine(fileAnnotations[i])) + "\n")
+//@   ensures failure-reported: ghost.fail && !old(ghost.fail) ==> err != nil
+//
+//@ func printAsJSON(writer, fileAnnotations) (err)
+//@   property C20
+//@   modifies heap, ghost.buf, ghost.fail, ghost.wfail, ghost.w_nrecs, ghost.w_recs, ghost.w_recAnn
+//@   ensures same-annotations-same-order: err == nil ==> ghost.w_nrecs == old(ghost.w_nrecs) + len(fileAnnotations) && (forall i int :: 0 <= i && i < len(fileAnnotations) ==> ghost.w_recAnn[old(ghost.w_nrecs) + i] == fileAnnotations[i] && hasSuffix(ghost.w_recs[old(ghost.w_nrecs) + i], "\n"))
+//@   ensures failure-reported: ghost.fail && !old(ghost.fail) ==> err != nil
+//
+// JUnit: one <testcase> per annotation. Its <failure message=...> is the annotation's TEXT-format line (so the file, the
+// position with the same defaults - line/column at least 1 - and the message agree with the other formats by construction),
+// its type attribute is the rule ID, and the test-case name starts with the rule ID (the position suffix is produced by
+// fmt.Sprintf, which has no content model). The case is recorded in ghost.w_cases when it is started; any failure of the
+// encoder is returned.
+//@ func printFileAnnotationAsJUnit(encoder, annotation) (err)
+//@   property C20
+//@   modifies heap, ghost.fail, ghost.wfail, ghost.w_ncases, ghost.w_cases
+//@   ghost before "testcase := xml.StartElement" w_cases := put(ghost.w_cases, ghost.w_ncases, annotation)
+//@   ghost before "testcase := xml.StartElement" w_ncases := ghost.w_ncases + 1
+//@   ensures one-case-for-this-annotation: ghost.w_ncases == old(ghost.w_ncases) + 1 && ghost.w_cases == put(old(ghost.w_cases), old(ghost.w_ncases), annotation)
+//@   ensures failure-reported: ghost.fail == (old(ghost.fail) || err != nil)
+//@   assert before "if err := encoder.EncodeToken(testcase)" name-starts-with-rule-id: len(testcase.Attr) == 1 && testcase.Attr[0].Name.Local == "name" && hasPrefix(testcase.Attr[0].Value, annotation.Type()) && (annotation.StartLine() == 0 && annotation.StartColumn() == 0 ==> testcase.Attr[0].Value == annotation.Type())
+//@   assert before "if err := encoder.EncodeToken(failure)" failure-is-the-text-record: len(failure.Attr) == 2 && failure.Attr[0].Name.Local == "message" && failure.Attr[0].Value == annotation.String() && failure.Attr[1].Name.Local == "type" && failure.Attr[1].Value == annotation.Type()
+//
+// github-actions escaping of the data parts of a workflow command (ghaEsc in /verif/specs/C20.spec is the oracle: the
+// three replacements of GitHub's escapeData, in its order). The result never contains a line break (axiom
+// w_ghaEsc-one-line: a fact about str.replace_all that the solvers answer `unknown` on) and text without "%", "\r",
+// "\n" is rendered verbatim, so the message agrees with the other formats.
+//@ pure func githubActionsEscapeData(s) (r)
+//@   property C20
+//@   reveal ghaEsc
+//@   use w_ghaEsc-one-line
+//@   ensures is-escapeData: r == ghaEsc(s)
+//@   ensures no-line-break: !contains(r, "\n")
+//@   ensures verbatim-when-nothing-to-escape: !contains(s, "%") && !contains(s, "\r") && !contains(s, "\n") ==> r == s
